@@ -45,7 +45,7 @@ manifest = {
     "setup_cmd": "/venv/bin/python -c \"import networkx, hypothesis, ipywidgets, IPython; import sys; sys.path.insert(0, '/repo/src'); import uberjob; print('setup ok', uberjob.__file__)\"",
     "hooks": {
         "guard": "UBERJOB_VERIF",
-        "enable": "no hook is needed: every seam is a module attribute swapped from /verif at run time (threading/time of uberjob modules and stdlib queue, Node.__hash__, open/os of uberjob.stores.*); checks import uberjob from /repo/src via PYTHONPATH",
+        "enable": "no hook is needed: every seam is swapped from /verif at run time and restored afterwards (references to threading / time / queue.SimpleQueue and import-time lock objects in uberjob modules and stdlib queue, bases of Thread subclasses, Node.__hash__; for file-backed cases builtins.open / io.open / os.replace, rename, remove, unlink, link, symlink, truncate, open, write, close for paths under the case's scratch directory only); checks import uberjob from /repo/src via PYTHONPATH",
         "baseline_off_cmd": "cd /repo && PYTHONPATH=/repo/src /venv/bin/python -m pytest -q -p no:cacheprovider --timeout=900",
         "source_commits": [],
         "add_only": True,
